@@ -2541,6 +2541,8 @@ def b_bool(ctx, x=False):
 
 
 def b_list(ctx, x=()):
+    if isinstance(x, SeqList):
+        return SeqList(ctx, x.n, x.item, x.tail)
     if isinstance(x, PyObj) and hasattr(x, 'tolist_'):
         return x.tolist_(ctx)
     return list(ctx.interp.iterate(x))
@@ -2617,6 +2619,9 @@ def b_id(ctx, x):
 
 
 def b_map(ctx, f, *xs):
+    if len(xs) == 1 and isinstance(xs[0], SeqList) and not xs[0].tail:
+        src = xs[0]
+        return SeqList(ctx, src.n, lambda k: ctx.interp.call(f, [src.at(k)], {}))
     cols = [ctx.interp.iterate(x) for x in xs]
     return [ctx.interp.call(f, list(t), {}) for t in zip(*cols)]
 
